@@ -1,4 +1,16 @@
 TEXT = {
+ 'C15': {
+  'text': 'Lean theorems (Props/C15.lean): error is nil iff the command exited 0; for every exit code k != 0 Exec reports ran=true and mg.ExitStatus = sh.ExitStatus = k; not started => ran=false and status 1; CmdRan/ExitStatus on the raw os/exec error agree with Exec; Output removes exactly one trailing newline; for every key, every env map, every inherited environment and every map iteration order the $KEY expansion equals what the child finds in its environment (map wins, inherited passes through, empty values included); stdout gating table. Tied to sh/cmd.go and mg/errors.go by shape bridges and by differential runs of all seven functions against a reporting child (argv, environment, stdin digest, both output streams) compared with the Lean oracle, exit codes swept over 0..255.',
+  'design_ref': 'DESIGN.md 4.F C15',
+  'note': 'Trusted: Lean kernel; os/exec and os.Expand (the latter transcribed and diffed); harness/child. Modelled, not verified: refinement of sh/cmd.go to Sh/Exec.lean (shape equality + differential testing). Not modelled: death by signal, writer I/O errors, duplicate keys in the inherited environment.',
+  'technique': 'Lean 4 proof over an executable model + regenerated-shape bridge + differential correspondence',
+ },
+ 'C16': {
+  'text': 'Heap model of Go slices (backing arrays, in-place append iff capacity allows). Lean theorems (Props/C16.lean) for the current source configuration: one closure call gives the child exactly map(expand env)(baked ++ extra) and changes no cell of any array that existed before (captured slice, caller slices, spare capacity); by induction every call of every history behaves so with the environment of that call; direct calls leave the caller\'s slice unchanged; closure call = direct call. The pinned (pre-fix) configuration is refuted by decide witnesses. The configuration is regenerated from sh/cmd.go (closures copy before append; Exec/run never assign through args[..]/env[..]) and bridged by decide; differential histories, direct calls and concurrent calls against the real closures.',
+  'design_ref': 'DESIGN.md 4.F C16',
+  'note': 'Trusted: Lean kernel; the append rule of the model; extractor facts. Partial: concurrent calls are covered by the no-write/ownership argument only informally (every call writes only arrays it allocated) and by sampled concurrent runs; Go memory-model effects beyond sequential consistency are not modelled.',
+  'technique': 'Lean 4 proof over a heap model + regenerated facts bridged by decide + differential histories',
+ },
  'C17': {
   'text': 'Lean theorems (Props/C17.lean) give the complete decision table of PathNewer/DirNewer/GlobNewer (true / false / error-at-index iff ...), order independence when all sources exist (any permutation of the sources and of the walk order), strictness at equal and +1ns times, the missing-destination shortcut, Dir\'s directory-destination rule via NewestModTime = maximum, and OldestModTime = minimum, for all source lists, trees and time stamps (unbounded). The model is tied to target/*.go by bridge theorems over the regenerated function shapes and by differential runs of the eight real functions on random real file trees with read-back mtimes against the Lean oracle.',
   'design_ref': 'DESIGN.md 4.F C17',
